@@ -66,7 +66,18 @@ def field_snap(nodes):
              tuple(n.nsmap.items())) for n in nodes]
 
 
-def check(spec, strict, case):
+def _swap_in_copies(root):
+    """every child of the root is replaced by its copy (the original is deleted): part of the tree then consists of nodes
+    that Node.copy() created"""
+    for c in list(root.children):
+        i = root.children.index(c)
+        cp = c.copy()
+        root.remove_child(c)
+        Node.delete_node_instance(c.id)
+        root.add_child(cp, i)
+
+
+def check(spec, strict, case, insert=False, copies=False):
     probs = []
 
     def bad(kind, exp, obs, **sig):
@@ -74,6 +85,8 @@ def check(spec, strict, case):
     # reference on a twin
     core.reset_store()
     twin = witness.build(spec)
+    if copies:
+        _swap_in_copies(twin)
     tix = index_map(twin)
     tnodes = witness.preorder(twin)
     removed_ref = []
@@ -87,7 +100,9 @@ def check(spec, strict, case):
     # implementation
     core.reset_store()
     ids = [0]
-    root = witness.build(spec, ids)
+    root = witness.build(spec, ids, insert=insert)
+    if copies:
+        _swap_in_copies(root)
     ix = index_map(root)
     nodes = witness.preorder(root)
     for i_, n_ in enumerate(nodes[1:]):
@@ -149,9 +164,15 @@ def check(spec, strict, case):
 
 def run_case(spec, strict, case):
     r = check(spec, strict, case)
-    if isinstance(r, tuple):
-        return r
-    return r, 0
+    if not isinstance(r, tuple):
+        r = (r, 0)
+    if e3.size(spec) <= 16:
+        # the same tree assembled with add_child(child, index): pruning is about the tree, not about how it was put together
+        r2 = check(spec, strict, dict(case, built_with="add_child(child, index)"), insert=True)
+        r = (r[0] + (r2[0] if isinstance(r2, tuple) else r2), r[1])
+        r3 = check(spec, strict, dict(case, built_with="children of the root replaced by their copies"), copies=True)
+        r = (r[0] + (r3[0] if isinstance(r3, tuple) else r3), r[1])
+    return r
 
 
 def work(item):
